@@ -1034,6 +1034,16 @@ def ipython_worker():
             res["evals"] += 1
             for clause, det in info.get("problems", []):
                 P.append((f"ipython:cell:{f}", clause, "cell AST changed only by the three additions", det))
+    # history: the extension is re-loaded between two choices -- still exactly ONE transformer, the one chosen last (C11: cells are checked
+    # by the checker given to the magic that is in force, not by a stale one as well)
+    for verb in ("reload_ext", "load_ext"):
+        shell.run_line_magic("jaxtyping.typechecker", "typeguard.typechecked")
+        shell.run_line_magic(verb, "jaxtyping")
+        shell.run_line_magic("jaxtyping.typechecker", "beartype.beartype")
+        inst = [t for t in shell.ast_transformers if isinstance(t, JaxtypingTransformer)]
+        res["evals"] += 1
+        if len(inst) != 1:
+            P.append((f"ipython:history:choose-{verb}-choose", "magic-installs-transformer", "exactly one JaxtypingTransformer after choosing, re-loading the extension and choosing again", f"{len(inst)}"))
     # behaviour through run_cell with the last chosen checker (beartype)
     r = shell.run_cell("def _c10_f(x: int):\n    return x\n_c10_ok = _c10_f(1)\ntry:\n    _c10_f('s'); _c10_bad = 'no error'\nexcept Exception as e:\n    _c10_bad = type(e).__name__\n", store_history=False, silent=True)
     res["evals"] += 1
